@@ -127,6 +127,15 @@ pub enum N {
         nap: u32,
         word: String,
     },
+    /// the `wait` built-in interrupted by a trapped signal while children other
+    /// than the awaited one change state at the same (simulated) time: a job
+    /// that runs "forever", a child that sends USR1 to the shell at t=2 and one
+    /// that exits at t=2; the trap action kills the awaited job. `wait` returns
+    /// a status > 128 at once, the action runs, the second `wait` reports the
+    /// kill. (Main shell only, programs without the USR1 trap of `Kp`.)
+    WaitTrap {
+        id: u32,
+    },
     /// `kill -s USR1 $$`: a signal for which the main shell has a trap with an
     /// invisible action (`trap : USR1`). Only generated in programs without
     /// asynchronous jobs, so that the sender is always a foreground child (or
@@ -210,6 +219,10 @@ impl Gen<'_> {
                     let n = *self.rng.pick(&[0u8, 0, 1, 2, 3, 7, 42, 126, 127, 255]);
                     out.push(N::Rc(n));
                     out.push(N::Qm);
+                }
+                31 if allow_bg && depth == 0 && !self.sigpar => {
+                    self.next_id += 1;
+                    out.push(N::WaitTrap { id: self.next_id });
                 }
                 30 if allow_bg && depth == 0 => {
                     self.next_id += 1;
@@ -634,6 +647,9 @@ fn render(n: &N, out: &mut String, _sep: &str) {
         )),
         N::Call(f) => out.push_str(&format!("f{f}")),
         N::Kp => out.push_str("kill -s USR1 $$"),
+        N::WaitTrap { id } => out.push_str(&format!(
+            "trap 'kill -s KILL $w_{id}' USR1; {{ nap 100000; }} & w_{id}=$!; {{ nap 2; kill -s USR1 $$; }} & s_{id}=$!; {{ nap 2; exit 0; }} & q_{id}=$!; wait $w_{id}; echo \"?=$(($?>128))\"; wait $w_{id}; echo \"?=$?\"; wait $s_{id} $q_{id}; trap - USR1"
+        )),
         N::EarlyExitPipe { n, status, word } => out.push_str(&format!("gen {n} 1 512 0 0 | {{ echo {word}; rc {status}; }}")),
         N::BgAndOr { id, first, word } => out.push_str(&format!(
             ": >out_{id}; rc {first} && echo {word} >>out_{id} & p_{id}=$!; wait $p_{id}; echo \"?=$?\"; cat out_{id}"
@@ -859,6 +875,11 @@ fn eval(n: &N, cx: &mut Ctx) {
             eval_block(&body, cx);
         }
         N::Nap(_) | N::Kp => cx.status = 0,
+        N::WaitTrap { .. } => {
+            cx.out.push("?=1".into());
+            cx.out.push("?=393".into());
+            cx.status = 0;
+        }
         N::Orphan { word, .. } => {
             cx.out.push(word.clone());
             cx.status = 0;
